@@ -1012,8 +1012,8 @@ Print Assumptions C07_analysis_sound_partial.
      Printer.doc_ok        the printer class of C01 (tokens keep their identity, blocks well formed, layout);
      Denote.adoc_ok        the class of C01_parse_print_partial: nothing the analysis reports as an ERROR (bad mode
                            value, dangling / conflicting reference, note or second quantity on a reference, bad
-                           intermediate reference, timer unit under ADVANCED_UNITS) and no switch to text mode;
-     DenoteQuiet.quiet_doc nothing it reports as a WARNING: unknown `[..]` config key, unaccepted value of a standard
+                           intermediate reference, timer unit under ADVANCED_UNITS);
+     DenoteQuiet.quiet_doc nothing it reports as a WARNING: no switch to text mode, unknown `[..]` config key, unaccepted value of a standard
                            key / time override in a `>>` entry, alphanumeric text omitted in components mode,
                            scaling lock without effect, redundant `+` / `&`, text against number between a
                            reference and its definition, incompatible units between references (ADVANCED_UNITS).
@@ -1129,123 +1129,116 @@ Definition C07_full_statement
    src/error.rs where a diagnostic is made (error!(..), warning!(..), SourceDiag::error / ::warning / ::unlabeled,
    .into_source_diag(..), the struct literals of error.rs) or a diagnostic made elsewhere is pushed, into
    Gen/DiagSites.v - (stage, file, enclosing fn, how, severity of the macro, the push methods seen, ordinal in the
-   fn, message), no line numbers.  What is pinned and mapped is [site_key]: the entry WITHOUT its message (the
-   property does not talk about wording; the wording beside each key below is a comment, as of the day the list
-   was written).  Model/DiagMap.v maps every key to its constructor. *)
+   fn, constructor of the models, message), no line numbers.  The constructor is named by the generator from the
+   dictionary of Model/DiagMap.v (by key and message, else message, else key, else position; else "unknown").
+   What is PINNED is coarse: per (stage, file) the set of (severity, constructor).  Moving a diagnostic to another
+   function, reordering, regrouping, building or pushing it another way, rewording it: harmless.  A diagnostic
+   nobody can name, a constructor that loses its last site in a file, a changed severity: the rows change. *)
 From Coq Require Import String.
 From CL Require Import Gen.DiagSites Model.DiagMap.
 From CL Require Proofs.DiagMapProofs Proofs.DiagSeverity.
 Local Open Scope string_scope.
 
-(* the keys of the inventory are this list: a diagnostic that is added, dropped, moved to another function, an
-   error! that becomes a warning! (or is handed to ctx.warn) changes them and breaks this obligation (rewording a
-   message does not); checks/c07.py reports the difference entry by entry, with the messages *)
-Theorem C07_diag_inventory : map site_key DiagSites.sites = [
-  Key AtAnalysis "event_consumer" "error!" "SourceDiag::error" IsError [] 0;   (* "<$msg>" *)
-  Key AtAnalysis "event_consumer" "error!" "SourceDiag::unlabeled" IsError [] 1;   (* "<$msg>" *)
-  Key AtAnalysis "event_consumer" "warning!" "SourceDiag::warning" IsWarning [] 0;   (* "<$msg>" *)
-  Key AtAnalysis "event_consumer" "warning!" "SourceDiag::unlabeled" IsWarning [] 1;   (* "<$msg>" *)
-  Key AtAnalysis "event_consumer" "parse_events" "forward" IsError [ByError "self.ctx"] 0;   (* "<e>" *)
-  Key AtAnalysis "event_consumer" "parse_events" "forward" IsDynamic [ByPush "self.ctx"] 1;   (* "<e>" *)
-  Key AtAnalysis "event_consumer" "parse_events" "forward" IsWarning [ByWarn "self.ctx"] 2;   (* "<w>" *)
-  Key AtAnalysis "event_consumer" "parse_events" "warning!" IsWarning [ByWarn "self.ctx"] 3;   (* "The '>>' syntax for metadata is deprecated, use a YAML frontmatter" *)
-  Key AtAnalysis "event_consumer" "process_frontmatter" "error!" IsError [ByError "self.ctx"] 0;   (* "<err.to_string()>" *)
-  Key AtAnalysis "event_consumer" "process_frontmatter" ".into_source_diag" IsDynamic [ByPush "self.ctx"] 1;   (* "Invalid metadata entry" *)
-  Key AtAnalysis "event_consumer" "process_frontmatter" "warning!" IsWarning [ByWarn "self.ctx"] 2;   (* "Unsupported value for key: '{}'" *)
-  Key AtAnalysis "event_consumer" "process_frontmatter" "warning!" IsWarning [ByWarn "self.ctx"] 3;   (* "Time overriden" *)
-  Key AtAnalysis "event_consumer" "metadata" "error!" IsError [ByError "self.ctx"] 0;   (* "Invalid value for config key '{key_t}': {value_t}" *)
-  Key AtAnalysis "event_consumer" "metadata" "warning!" IsWarning [ByWarn "self.ctx"] 1;   (* "Unknown config metadata key: {key_t}" *)
-  Key AtAnalysis "event_consumer" "metadata" ".into_source_diag" IsDynamic [ByPush "self.ctx"] 2;   (* "Invalid metadata entry" *)
-  Key AtAnalysis "event_consumer" "metadata" "warning!" IsWarning [ByWarn "self.ctx"] 3;   (* "Unsupported value for key: '{}'" *)
-  Key AtAnalysis "event_consumer" "time_override_check" "warning!" IsWarning [ByWarn "self.ctx"] 0;   (* "Time overridden" *)
-  Key AtAnalysis "event_consumer" "in_step" "warning!" IsWarning [ByWarn "self.ctx"] 0;   (* "Ignoring text in define components mode" *)
-  Key AtAnalysis "event_consumer" "in_text" "warning!" IsWarning [ByWarn "self.ctx"] 0;   (* "Ignoring {c} in text mode" *)
-  Key AtAnalysis "event_consumer" "ingredient" "error!" IsError [ByError "self.ctx"] 0;   (* "Conflicting modifiers with intermediate preparation reference" *)
-  Key AtAnalysis "event_consumer" "ingredient" "forward" IsError [ByError "self.ctx"] 1;   (* "<error>" *)
-  Key AtAnalysis "event_consumer" "ingredient" "warning!" IsWarning [ByWarn "self.ctx"] 2;   (* "Incompatible units prevent calculating total amount" *)
-  Key AtAnalysis "event_consumer" "ingredient" ".into_source_diag" IsDynamic [ByPush "self.ctx"] 3;   (* "Referenced recipe not found: {}" *)
-  Key AtAnalysis "event_consumer" "resolve_intermediate_ref" "error!" IsError [] 0;   (* "{INVALID}: number is 0" *)
-  Key AtAnalysis "event_consumer" "resolve_intermediate_ref" "error!" IsError [] 1;   (* "{INVALID}: relative reference to self" *)
-  Key AtAnalysis "event_consumer" "resolve_intermediate_ref" "error!" IsError [] 2;   (* "{INVALID}: value out of bounds" *)
-  Key AtAnalysis "event_consumer" "timer" "error!" IsError [ByError "self.ctx"] 0;   (* "Timer value is text: {}" *)
-  Key AtAnalysis "event_consumer" "timer" "error!" IsError [ByError "self.ctx"] 1;   (* "Timer unit is not time: {unit}" *)
-  Key AtAnalysis "event_consumer" "timer" "error!" IsError [ByError "self.ctx"] 2;   (* "Unknown timer unit: {unit_text}" *)
-  Key AtAnalysis "event_consumer" "value" "warning!" IsWarning [ByWarn "self.ctx"] 0;   (* "Unnecessary scaling lock modifier" *)
-  Key AtAnalysis "event_consumer" "resolve_reference" "error!" IsError [ByError "self.ctx"] 0;   (* "Unsupported modifier combination with reference: {conflict}" *)
-  Key AtAnalysis "event_consumer" "resolve_reference" "warning!" IsWarning [ByWarn "self.ctx"] 1;   (* "Redundant {redundant} modifier" *)
-  Key AtAnalysis "event_consumer" "resolve_reference" "error!" IsError [ByError "self.ctx"] 2;   (* "Reference not found: {}" *)
-  Key AtAnalysis "event_consumer" "note_reference_error" "error!" IsError [ByError "self.ctx"] 0;   (* "Note not allowed in reference" *)
-  Key AtAnalysis "event_consumer" "conflicting_reference_quantity_error" "error!" IsError [ByError "self.ctx"] 0;   (* "Conflicting component reference quantities" *)
-  Key AtAnalysis "event_consumer" "text_val_in_ref_warn" "warning!" IsWarning [ByWarn "self.ctx"] 0;   (* "Text value may prevent calculating total amount" *)
-  Key AtAnalysis "mod" "into_source_diag" "SourceDiag::unlabeled" IsDynamic [] 0;   (* "<message()>" *)
-  Key AtAny "error" "error" "SourceDiag{}" IsError [] 0;   (* "<message.into()>" *)
-  Key AtAny "error" "warning" "SourceDiag{}" IsWarning [] 0;   (* "<message.into()>" *)
-  Key AtAny "error" "unlabeled" "SourceDiag{}" IsDynamic [] 0;   (* "<message.into()>" *)
-  Key AtParse "metadata" "metadata_entry" "warning!" IsWarning [ByWarn "block"] 0;   (* "A metadata block is invalid and it will be a step" *)
-  Key AtParse "metadata" "metadata_entry" "error!" IsError [ByError "block"] 1;   (* "Empty metadata key" *)
-  Key AtParse "metadata" "metadata_entry" "warning!" IsWarning [ByWarn "block"] 2;   (* "Empty metadata value for key: {}" *)
-  Key AtParse "mod" "error!" "SourceDiag::error" IsError [] 0;   (* "<$msg>" *)
-  Key AtParse "mod" "warning!" "SourceDiag::warning" IsWarning [] 0;   (* "<$msg>" *)
-  Key AtParse "quantity" "parse_regular_quantity" "warning!" IsWarning [ByWarn "bp"] 0;   (* "Empty quantity unit" *)
-  Key AtParse "quantity" "parse_advanced_quantity" "forward" IsError [ByError "bp"] 0;   (* "<err>" *)
-  Key AtParse "quantity" "parse_value" "forward" IsError [ByError "bp"] 0;   (* "<err>" *)
-  Key AtParse "quantity" "text_value" "error!" IsError [ByError "bp"] 0;   (* "Empty quantity value" *)
-  Key AtParse "quantity" "frac" "error!" IsError [] 0;   (* "Division by zero" *)
-  Key AtParse "quantity" "int" "error!" IsError [] 0;   (* "Error parsing integer number" *)
-  Key AtParse "quantity" "float" "error!" IsError [] 0;   (* "Error parsing decimal number" *)
-  Key AtParse "section" "section" "warning!" IsWarning [ByWarn "block"] 0;   (* "A section block is invalid and it will be a step" *)
-  Key AtParse "step" "comp_body" "warning!" IsWarning [ByWarn "bp"] 0;   (* "Invalid single word name, the component will be ignored" *)
-  Key AtParse "step" "parse_modifiers" "error!" IsError [ByError "bp"] 0;   (* "Duplicate modifier: {}" *)
-  Key AtParse "step" "parse_intermediate_ref_data" "error!" IsError [ByError "bp"] 0;   (* "{INVALID}: empty" *)
-  Key AtParse "step" "parse_intermediate_ref_data" "error!" IsError [ByError "bp"] 1;   (* "{INVALID}: wrong relative section order" *)
-  Key AtParse "step" "parse_intermediate_ref_data" "error!" IsError [ByError "bp"] 2;   (* "{INVALID}: value sign" *)
-  Key AtParse "step" "parse_intermediate_ref_data" "error!" IsError [ByError "bp"] 3;   (* "Invalid intermediate preparation reference" *)
-  Key AtParse "step" "parse_intermediate_ref_data" "error!" IsError [ByError "bp"] 4;   (* "Error parsing integer number" *)
-  Key AtParse "step" "parse_alias" "error!" IsError [ByError "bp"] 0;   (* "Invalid {container}: multiple aliases" *)
-  Key AtParse "step" "parse_alias" "error!" IsError [ByError "bp"] 1;   (* "Invalid {container}: empty alias" *)
-  Key AtParse "step" "cookware" "error!" IsError [ByError "bp"] 0;   (* "Invalid cookware quantity: unit" *)
-  Key AtParse "step" "cookware" "error!" IsError [ByError "bp"] 1;   (* "Invalid cookware modifiers: recipe modifier not allowed" *)
-  Key AtParse "step" "timer" "error!" IsError [ByError "bp"] 0;   (* "Invalid timer quantity: missing unit" *)
-  Key AtParse "step" "timer" "error!" IsError [ByError "bp"] 1;   (* "Invalid timer: missing quantity" *)
-  Key AtParse "step" "timer" "error!" IsError [ByError "bp"] 2;   (* "Invalid timer: neither quantity nor name" *)
-  Key AtParse "step" "check_modifiers" "error!" IsError [ByError "bp"] 0;   (* "Invalid {container}: modifiers not allowed" *)
-  Key AtParse "step" "check_intermediate_data" "error!" IsError [ByError "bp"] 0;   (* "Invalid {container}: intermediate preparation reference not allowed" *)
-  Key AtParse "step" "check_alias" "error!" IsError [ByError "bp"] 0;   (* "Invalid {container}: alias not allowed" *)
-  Key AtParse "step" "check_note" "warning!" IsWarning [ByWarn "bp"] 0;   (* "A {container} cannot have a note, it will be text" *)
-  Key AtParse "step" "check_empty_name" "error!" IsError [ByError "bp"] 0   (* "Invalid {container} name: is empty" *)
+Theorem C07_diag_inventory : DiagSites.summary = [
+  (AtAnalysis, "event_consumer", IsDynamic, "Unmodelled callback_why");
+  (AtAnalysis, "event_consumer", IsError, "AKind KConflictModifiers");
+  (AtAnalysis, "event_consumer", IsError, "AKind KConflictQuantity");
+  (AtAnalysis, "event_consumer", IsError, "AKind KInterBounds");
+  (AtAnalysis, "event_consumer", IsError, "AKind KInterModifiers");
+  (AtAnalysis, "event_consumer", IsError, "AKind KInterZero");
+  (AtAnalysis, "event_consumer", IsError, "AKind KInvalidConfigValue");
+  (AtAnalysis, "event_consumer", IsError, "AKind KNoteOnReference");
+  (AtAnalysis, "event_consumer", IsError, "AKind KRefNotFound");
+  (AtAnalysis, "event_consumer", IsError, "AKind KTimerUnitNotTime");
+  (AtAnalysis, "event_consumer", IsError, "AKind KTimerUnitUnknown");
+  (AtAnalysis, "event_consumer", IsError, "AKind KTimerValueText");
+  (AtAnalysis, "event_consumer", IsError, "AKind KYamlError");
+  (AtAnalysis, "event_consumer", IsError, "Ctor");
+  (AtAnalysis, "event_consumer", IsWarning, "AKind KDeprecated");
+  (AtAnalysis, "event_consumer", IsWarning, "AKind KIgnoredComponent");
+  (AtAnalysis, "event_consumer", IsWarning, "AKind KIgnoredText");
+  (AtAnalysis, "event_consumer", IsWarning, "AKind KIncompatibleUnits");
+  (AtAnalysis, "event_consumer", IsWarning, "AKind KRedundantModifier");
+  (AtAnalysis, "event_consumer", IsWarning, "AKind KScalingLock");
+  (AtAnalysis, "event_consumer", IsWarning, "AKind KStdEntryMeta");
+  (AtAnalysis, "event_consumer", IsWarning, "AKind KStdEntryYaml");
+  (AtAnalysis, "event_consumer", IsWarning, "AKind KTextValueInRef");
+  (AtAnalysis, "event_consumer", IsWarning, "AKind KTimeOverridden");
+  (AtAnalysis, "event_consumer", IsWarning, "AKind KTimeOverridenYaml");
+  (AtAnalysis, "event_consumer", IsWarning, "AKind KUnknownConfigKey");
+  (AtAnalysis, "event_consumer", IsWarning, "Ctor");
+  (AtAnalysis, "mod", IsDynamic, "Unmodelled callback_why");
+  (AtAny, "error", IsDynamic, "Ctor");
+  (AtAny, "error", IsError, "Ctor");
+  (AtAny, "error", IsWarning, "Ctor");
+  (AtParse, "metadata", IsError, "PCode D_EMPTY_META_KEY");
+  (AtParse, "metadata", IsWarning, "PCode D_EMPTY_META_VALUE");
+  (AtParse, "metadata", IsWarning, "PCode D_META_INVALID");
+  (AtParse, "mod", IsError, "Ctor");
+  (AtParse, "mod", IsWarning, "Ctor");
+  (AtParse, "quantity", IsError, "PCode D_DIV_ZERO");
+  (AtParse, "quantity", IsError, "PCode D_EMPTY_VALUE");
+  (AtParse, "quantity", IsError, "PCode D_INT_PARSE");
+  (AtParse, "quantity", IsError, "Unmodelled float_why");
+  (AtParse, "quantity", IsWarning, "PCode D_EMPTY_UNIT");
+  (AtParse, "section", IsWarning, "PCode D_SECTION_INVALID");
+  (AtParse, "step", IsError, "PCode D_ALIAS_NOT_ALLOWED");
+  (AtParse, "step", IsError, "PCode D_COOKWARE_RECIPE");
+  (AtParse, "step", IsError, "PCode D_COOKWARE_UNIT");
+  (AtParse, "step", IsError, "PCode D_DUP_MOD");
+  (AtParse, "step", IsError, "PCode D_EMPTY_ALIAS");
+  (AtParse, "step", IsError, "PCode D_EMPTY_NAME");
+  (AtParse, "step", IsError, "PCode D_INTER_EMPTY");
+  (AtParse, "step", IsError, "PCode D_INTER_INT");
+  (AtParse, "step", IsError, "PCode D_INTER_INVALID");
+  (AtParse, "step", IsError, "PCode D_INTER_NOT_ALLOWED");
+  (AtParse, "step", IsError, "PCode D_INTER_ORDER");
+  (AtParse, "step", IsError, "PCode D_INTER_SIGN");
+  (AtParse, "step", IsError, "PCode D_MODS_NOT_ALLOWED");
+  (AtParse, "step", IsError, "PCode D_MULTI_ALIAS");
+  (AtParse, "step", IsError, "PCode D_TIMER_NEITHER");
+  (AtParse, "step", IsError, "PCode D_TIMER_NO_QTY");
+  (AtParse, "step", IsError, "PCode D_TIMER_NO_UNIT");
+  (AtParse, "step", IsWarning, "PCode D_NOTE_WARN");
+  (AtParse, "step", IsWarning, "PCode D_SINGLE_WORD")
 ].
 Proof. reflexivity. Qed.
 Print Assumptions C07_diag_inventory.
 
-(* the table of Model/DiagMap.v has exactly the keys of the inventory as keys, in order *)
-Theorem C07_diag_table_keys : map fst DiagMap.table = map site_key DiagSites.sites.
-Proof. exact DiagMapProofs.table_keys. Qed.
-Print Assumptions C07_diag_table_keys.
+(* the rows are exactly the (stage, file, severity, constructor) of the sites that are not "forward" pushes *)
+Theorem C07_diag_summary_ok : summary_ok DiagSites.sites DiagSites.summary = true.
+Proof. exact DiagMapProofs.summary_is_ok. Qed.
+Print Assumptions C07_diag_summary_ok.
 
-(* an entry that stands for a kind of the analysis model is of the Analysis stage, has the severity
-   [kind_is_error] gives that kind (C07_kind_severity: the severity of the model's SourceDiag), and no push method
-   it is handed to asserts the other severity *)
+(* every site is given a constructor ("unknown" is none) and agrees with it: [site_ok] *)
+Theorem C07_diag_sites_ok : forall s, In s DiagSites.sites -> site_ok s = true.
+Proof. exact DiagMapProofs.sites_ok. Qed.
+Print Assumptions C07_diag_sites_ok.
+
+(* a site that stands for a kind of the analysis model is of the Analysis stage, has the severity [kind_is_error]
+   gives that kind (C07_kind_severity: the severity of the model's SourceDiag), and no push method it is handed to
+   asserts the other severity *)
 Theorem C07_diag_kind_severity :
-  forall s k, In (s, AKind k) DiagMap.table ->
-  key_stage s = AtAnalysis /\ key_sev s = sev_of_bool (kind_is_error k) /\
-  forallb (push_ok (key_sev s)) (key_pushes s) = true.
-Proof. exact DiagMapProofs.table_kind_severity. Qed.
+  forall s k, In s DiagSites.sites -> site_target s = Some (AKind k) ->
+  site_stage s = AtAnalysis /\ site_sev s = sev_of_bool (kind_is_error k) /\
+  forallb (push_ok (site_sev s)) (site_pushes s) = true.
+Proof. exact DiagMapProofs.site_kind_severity. Qed.
 Print Assumptions C07_diag_kind_severity.
 
-(* an entry that stands for a parse-stage code is of the Parse stage, the code is one of the 27 of
-   [DiagMap.all_pcodes], and the entry has the severity the parser model builds that code with *)
+(* a site that stands for a parse-stage code is of the Parse stage, the code is one of the 27 of
+   [DiagMap.all_pcodes], and the site has the severity the parser model builds that code with *)
 Theorem C07_diag_pcode_severity :
-  forall s c, In (s, PCode c) DiagMap.table ->
-  key_stage s = AtParse /\ pcode_sev c = Some (pcode_is_error c) /\ key_sev s = sev_of_bool (pcode_is_error c) /\
-  forallb (push_ok (key_sev s)) (key_pushes s) = true.
-Proof. exact DiagMapProofs.table_pcode_severity. Qed.
+  forall s c, In s DiagSites.sites -> site_target s = Some (PCode c) ->
+  site_stage s = AtParse /\ pcode_sev c = Some (pcode_is_error c) /\ site_sev s = sev_of_bool (pcode_is_error c) /\
+  forallb (push_ok (site_sev s)) (site_pushes s) = true.
+Proof. exact DiagMapProofs.site_pcode_severity. Qed.
 Print Assumptions C07_diag_pcode_severity.
 
 (* the constructors SourceDiag::error / ::warning / ::unlabeled and the bodies of the macros error! / warning! give
    the severity their name says *)
 Theorem C07_diag_ctor_severity :
-  forall s, In (s, Ctor) DiagMap.table -> ctor_ok s = true.
-Proof. exact DiagMapProofs.table_ctor_ok. Qed.
+  forall s, In s DiagSites.sites -> site_target s = Some Ctor -> ctor_ok (site_key s) = true.
+Proof. exact DiagMapProofs.site_ctor_ok. Qed.
 Print Assumptions C07_diag_ctor_severity.
 
 (* [pcode_sev] IS the severity of the parser model: every diagnostic it emits, for every source, extension set and
@@ -1257,12 +1250,14 @@ Proof. exact DiagSeverity.events_code_severity. Qed.
 Print Assumptions C07_parse_severity_by_code.
 
 (* no constructor of the models is without a place in the code: every kind of C07_kinds_enumerated and every
-   parse-stage code is the image of an entry *)
-Theorem C07_diag_kinds_covered : forall k : akind, exists s, In (s, AKind k) DiagMap.table.
+   parse-stage code is the constructor of a site *)
+Theorem C07_diag_kinds_covered :
+  forall k : akind, exists s, In s DiagSites.sites /\ site_target s = Some (AKind k).
 Proof. exact DiagMapProofs.kinds_covered. Qed.
 Print Assumptions C07_diag_kinds_covered.
 
-Theorem C07_diag_pcodes_covered : forall c : N, In c DiagMap.all_pcodes -> exists s, In (s, PCode c) DiagMap.table.
+Theorem C07_diag_pcodes_covered :
+  forall c : N, In c DiagMap.all_pcodes -> exists s, In s DiagSites.sites /\ site_target s = Some (PCode c).
 Proof. exact DiagMapProofs.pcodes_covered. Qed.
 Print Assumptions C07_diag_pcodes_covered.
 
@@ -1271,29 +1266,21 @@ Print Assumptions C07_diag_pcodes_covered.
 Theorem C07_parse_diag_has_site :
   forall U cfg s evs d,
   events U cfg s = Done evs -> In (EvDiag d) evs ->
-  exists st, In st DiagSites.sites /\ In (site_key st, PCode (d_code d)) DiagMap.table /\
+  exists st, In st DiagSites.sites /\ site_target st = Some (PCode (d_code d)) /\
              site_stage st = AtParse /\ site_sev st = sev_of_bool (d_err d).
 Proof. exact DiagMapProofs.parse_diag_has_site. Qed.
 Print Assumptions C07_parse_diag_has_site.
 
 Theorem C07_analysis_diag_has_site :
   forall d : adiag,
-  exists st, In st DiagSites.sites /\ In (site_key st, AKind (ad_kind d)) DiagMap.table /\
+  exists st, In st DiagSites.sites /\ site_target st = Some (AKind (ad_kind d)) /\
              site_stage st = AtAnalysis /\ site_sev st = sev_of_bool (sd_is_error (to_sdiag d)).
 Proof. exact DiagMapProofs.analysis_diag_has_site. Qed.
 Print Assumptions C07_analysis_diag_has_site.
 
-(* the converse fails for exactly these five entries: diagnostics of the code that NO constructor of the models
-   stands for, so that every theorem of this file quantifies over fewer diagnostics than the code has.  Four belong
-   to the callbacks of ParseOptions (metadata_validator, recipe_ref_check: a CheckResult turned into a diagnostic of
-   the severity the callback chose; the models are those of the default options, which have none), one is the error
-   of float() of quantity.rs for a failing f64 parse of a float token (float() of Model/Parser.v is total) *)
-Theorem C07_diag_unmodelled : DiagMapProofs.unmodelled_sites = [
-  Key AtAnalysis "event_consumer" "process_frontmatter" ".into_source_diag" IsDynamic [ByPush "self.ctx"] 1;   (* "Invalid metadata entry" *)
-  Key AtAnalysis "event_consumer" "metadata" ".into_source_diag" IsDynamic [ByPush "self.ctx"] 2;   (* "Invalid metadata entry" *)
-  Key AtAnalysis "event_consumer" "ingredient" ".into_source_diag" IsDynamic [ByPush "self.ctx"] 3;   (* "Referenced recipe not found: {}" *)
-  Key AtAnalysis "mod" "into_source_diag" "SourceDiag::unlabeled" IsDynamic [] 0;   (* "<message()>" *)
-  Key AtParse "quantity" "float" "error!" IsError [] 0   (* "Error parsing decimal number" *)
-].
-Proof. reflexivity. Qed.
-Print Assumptions C07_diag_unmodelled.
+(* the converse fails for the rows of C07_diag_inventory whose constructor is `Unmodelled ..`: diagnostics of the code
+   that NO constructor of the models stands for, so that every theorem of this file quantifies over fewer diagnostics
+   than the code has.  `Unmodelled callback_why` (event_consumer, analysis/mod.rs): the callbacks of ParseOptions
+   (metadata_validator, recipe_ref_check: a CheckResult turned into a diagnostic of the severity the callback chose;
+   the models are those of the default options, which have none); `Unmodelled float_why` (quantity): the error of
+   float() of quantity.rs for a failing f64 parse of a float token (float() of Model/Parser.v is total). *)
